@@ -117,6 +117,7 @@ KCtl == {"pub1", "sub", "unsub", "ping"}
 KPub01 == {"pub0", "pub1"}
 KPub1 == {"pub1"}
 KPub2 == {"pub2"}
+KPub1Rel == {"pub1", "pubrel"}
 KIds == {"pub1", "pub2", "pubrel", "sub"}
 KLim == {"pub1", "pub0", "ping"}
 KLimBig == {"pub1", "big1", "long1", "ping"}
